@@ -19,6 +19,7 @@ P = types.SimpleNamespace()
 MODE = 'check'          # 'check' | 'twin'
 REGISTRY = {}           # module name -> [CondSpec]
 WAIVED = []             # (finding id, clause, state) collected during a concrete replay
+UNTRACED_CALLS = [0]    # how often untraced() was entered (tells selector-enumeration conditions from symbolic ones)
 
 _HERE = os.path.dirname(os.path.dirname(os.path.abspath(__file__)))
 KNOWN_FINDINGS_FILE = os.path.join(_HERE, 'known_findings.json')
@@ -144,6 +145,7 @@ def untraced(fn, *args):
     which CrossHair decides with a balanced solver fan-out, so every value the precondition allows is still visited,
     one per path - and the body then runs without CrossHair's tracing overhead.
     Only for conditions whose inputs are small non-negative table selectors / booleans."""
+    UNTRACED_CALLS[0] += 1
     try:
         from crosshair.tracers import NoTracing, is_tracing
     except ImportError:  # pragma: no cover
